@@ -282,6 +282,14 @@ func encode(k int, v flat) ([]byte, error) {
 		buf := make([]byte, vs.EncodedSize())
 		n := vs.EncodeValue(buf)
 		return buf[:n], nil
+	case 14: // the whole buffer a caller reserves with EncodedSize, after EncodeValue
+		vs := kv.ValueStruct{Meta: byte(v.N[0]), ExpiresAt: v.N[1], Value: v.B[0]}
+		buf := make([]byte, vs.EncodedSize())
+		vs.EncodeValue(buf)
+		return buf, nil
+	case 15:
+		vs := kv.ValueStruct{Meta: byte(v.N[0]), ExpiresAt: v.N[1], Value: v.B[0]}
+		return binary.BigEndian.AppendUint32(nil, vs.EncodedSize()), nil
 	case 4:
 		return kv.ValuePtr{Len: uint32(v.N[0]), Offset: uint32(v.N[1]), Fid: uint32(v.N[2]), Bucket: uint32(v.N[3])}.Encode(), nil
 	case 5:
@@ -612,6 +620,31 @@ func runCodec(c *corr.Ctx) error {
 		// command frame: opaque body
 		emitDec(c, 9, append([]byte{0xCE}, []byte{}...), &flat{N: []uint64{1}, B: [][]byte{{}}}, "valid")
 		emitDec(c, 9, genBytes(c, 10), nil, "malformed")
+	}
+
+	// ValueStruct.EncodedSize / EncodeValue / DecodeValue with ExpiresAt at every bit-length boundary
+	exps := []uint64{0}
+	for k := uint(1); k <= 9; k++ {
+		exps = append(exps, 1<<(7*k)-1, 1<<(7*k), 1<<(7*k)+1)
+	}
+	exps = append(exps, 1<<64-1)
+	for _, x := range exps {
+		for _, val := range [][]byte{{}, {'v'}, {0, 0, 0}} {
+			v := flat{N: []uint64{uint64(c.Rng.Intn(256)), x}, B: [][]byte{val}}
+			for _, k := range []int{14, 15} {
+				enc, err := encode(k, v)
+				if err != nil {
+					return err
+				}
+				vv := v
+				c.Count("enc_value_struct_sized")
+				c.Emit(corr.Case{Coq: fmt.Sprintf("Ce %d %s (H %s)", k, v.term(), corr.Hex(enc)), Nontrivial: true, Desc: codecDesc{Kind: "enc", K: k, V: &vv}})
+				if k == 14 { // what a reader of the reserved buffer gets back
+					ex := v
+					emitDec(c, 3, enc, &ex, "valid")
+				}
+			}
+		}
 	}
 
 	// key order
